@@ -40,7 +40,7 @@ package ldb
 //@   props C11 C19
 //@   requires wfBatch(b) && b.seqNo < 0xffffffff
 //@   modifies b, b.puts
-//@   ensures wfBatch(b) && b.seqNo == old(b.seqNo) + 1 && b.puts == old(b.puts) && b.deletes == old(b.deletes) && b.b == old(b.b)
+//@   ensures wfBatch(b) && b.seqNo == old(b.seqNo) + 1 && sameRef(b.puts, old(b.puts)) && sameRef(b.deletes, old(b.deletes)) && b.b == old(b.b)
 //@   ensures has(b.puts, strOf(k)) && b.puts[strOf(k)].seq == b.seqNo && sameSlice(b.puts[strOf(k)].data, v)
 //@   ensures forall qs_ string :: qs_ != strOf(k) ==> has(b.puts, qs_) == old(has(b.puts, qs_)) && b.puts[qs_] == old(b.puts[qs_])
 //@   ensures isPut(b, strOf(k))
@@ -49,7 +49,7 @@ package ldb
 //@   props C11 C19
 //@   requires wfBatch(b) && b.seqNo < 0xffffffff
 //@   modifies b, b.deletes
-//@   ensures wfBatch(b) && b.seqNo == old(b.seqNo) + 1 && b.puts == old(b.puts) && b.deletes == old(b.deletes) && b.b == old(b.b)
+//@   ensures wfBatch(b) && b.seqNo == old(b.seqNo) + 1 && sameRef(b.puts, old(b.puts)) && sameRef(b.deletes, old(b.deletes)) && b.b == old(b.b)
 //@   ensures has(b.deletes, strOf(k)) && b.deletes[strOf(k)] == b.seqNo
 //@   ensures forall qs_ string :: qs_ != strOf(k) ==> has(b.deletes, qs_) == old(has(b.deletes, qs_)) && b.deletes[qs_] == old(b.deletes[qs_])
 //@   ensures isDeleted(b, strOf(k))
